@@ -28,8 +28,8 @@ ASSUMPTIONS = [
 ]
 
 SCHEMA = {
-    "m": [],
-    "a": [("style", 8), ("exit", 4), ("at", 2)],  # at: app:X or the empty default type
+    "m": [("kf", 2)],  # kf: the message has a field named action_status
+    "a": [("style", 8), ("exit", 4), ("at", 2), ("kf", 2)],  # at: app:X or the empty default type; kf: start/success field named message_type
 }
 # exits used: 0 ok, 1 ValueError caught outside, 2 OSError, 3 Custom ; propagation
 # via EXITS index 12 (up=99) is added through "exit2"
